@@ -415,8 +415,11 @@ var kC07BechStr = register(&Kind[c07BechStr]{
 			b[i] = rapid.Byte().Draw(t, "c")
 		case 3: // remove the separator(s)
 			b = []byte(strings.ReplaceAll(s, "1", ""))
-		case 4: // separator first
+		case 4: // separator first: with the old checksum, or with one that is valid for the empty prefix
 			b = append([]byte("1"), b[len(hrp)+1:]...)
+			if rapid.Bool().Draw(t, "emptyhrp_valid") {
+				b = []byte(refBech32Encode("", data))
+			}
 		case 5: // put a '1' inside the last 6 characters (not valid data symbol)
 			i := rapid.IntRange(1, 6).Draw(t, "i")
 			b[len(b)-i] = '1'
